@@ -7,6 +7,7 @@ import (
 
 	"github.com/hashicorp/go-slug/sourceaddrs"
 
+	"verif/harness/corpus"
 	"verif/harness/fw"
 	"verif/harness/gen"
 )
@@ -297,6 +298,14 @@ func init() {
 			return c07CheckString(s, false, "")
 		},
 	}
+	kept := corpus.Addresses()
+	distilled := &fw.Phase{
+		Name: "fuzz-distilled-inputs", Exhaustive: true,
+		N: func(string) int { return len(kept) },
+		Run: func(env *fw.Env, idx int) fw.Result {
+			return c07CheckString(kept[idx], false, "")
+		},
+	}
 	constructor := &fw.Phase{
 		Name: "constructor-from-parts",
 		N:    fw.Fixed(30000, 120000),
@@ -348,6 +357,6 @@ func init() {
 		Rule: "strings from the documented grammar (must be accepted), an exhaustive table of single-rule violations x 4 spellings (must be rejected), mutated and arbitrary strings (if accepted the policy must hold) go through ParseSource, ParseFinalSource, ParseRemoteSource and ParseRemotePackage; " +
 			"(type, URL, sub-path) triples taken from accepted addresses with exactly one part tampered go through MakeRemoteSource. non-trivial = accepted by some route, or built to violate exactly one rule; distinct = input string / (base, tamper)",
 		Assumptions: []string{"the policy predicate in props/c07.go is the documented transport policy", "must-accept covers only forms documented in the package's comments and tests"},
-		Phases:      []*fw.Phase{mustAccept, ruleViol, arbitrary, constructor},
+		Phases:      []*fw.Phase{mustAccept, ruleViol, arbitrary, distilled, constructor},
 	})
 }
